@@ -52,7 +52,7 @@ func (g *FuncGen) execCall(x *ssa.Call, st *State) error {
 			g.tuples[x] = res
 		}
 	}
-	if c == nil && callee != nil && g.canInline(callee) {
+	if c == nil && callee != nil && !g.eng.isKnownPure(com) && g.canInline(callee) {
 		if rs, ok := g.inlineCall(callee, args, st); ok {
 			g.inlined[shortKey(callee.String())] = true
 			if nres == 1 {
